@@ -386,6 +386,60 @@ def inDomainLines (O : Oracles) (ls : List Bytes) : Bool :=
 
 end RawPanelVerif.Spec.In
 
+/-! ## lines outside the domain inside a batch: no line changes what its neighbours denote
+
+The grammar assigns no meaning to a line with a grammar keyword / key and arguments that do not parse (an enumerated value
+outside its enumeration, a malformed number …): `classify = .outside`.  What the property still fixes for a batch that
+contains such lines: "one effect per line and in line order" — every line denotes what it denotes on its own, whatever
+stands before or after it.  `readFromWith O alone` reads a batch like `readFrom`, taking for an outside line that is
+not a graphics part the effects `alone l` that line has as a one-line batch (for the check: what the decoder under test
+returns for `[l]`; for the theorem `C02.dec_context_free`: what the decoder model returns).  Graphics parts are the one
+construct whose meaning depends on earlier lines; a malformed graphics part stays outside this domain too. -/
+namespace RawPanelVerif.Spec.In
+open RawPanelVerif RawPanelVerif.Bytes RawPanelVerif.MsgIn
+
+/-- the key of the line names one of the three graphics families -/
+def isGfxFamLine (l : Bytes) : Bool :=
+  match cut 61 l with
+  | some (key, _) =>
+    (match cut 35 key with
+     | some (fam, _) => fam == asc "HWCg" || fam == asc "HWCgRGB" || fam == asc "HWCgGray"
+     | none => false)
+  | none => false
+
+/-- a line whose own (context-free) reading is supplied: outside the grammar's domain, and not a graphics part -/
+def isLoneLine (O : Oracles) (l : Bytes) : Bool := classify O l == .outside && !isGfxFamLine l
+
+def readFromWith (O : Oracles) (alone : Bytes → List Effect) : Option Xfer → List Bytes → List Effect
+  | _, [] => []
+  | x, l :: ls =>
+    if isLoneLine O l then alone l ++ readFromWith O alone x ls
+    else match readLine O l with
+      | .effects es => es ++ readFromWith O alone x ls
+      | .gfx p => let (x', es) := stepGfx x p; es ++ readFromWith O alone x' ls
+
+/-- the batch read with the outside lines' own meaning -/
+def readInboundWith (O : Oracles) (alone : Bytes → List Effect) (ls : List Bytes) : List Effect := readFromWith O alone none ls
+
+/-- graphics discipline over the lines that are read by the grammar -/
+def gfxDisciplineCtx (O : Oracles) : Option Xfer → List Bytes → Bool
+  | _, [] => true
+  | x, l :: ls =>
+    if isLoneLine O l then gfxDisciplineCtx O x ls
+    else match readLine O l with
+      | .effects _ => gfxDisciplineCtx O x ls
+      | .gfx p =>
+        match stepGfx x p with
+        | (none, []) => false
+        | (x', _) => gfxDisciplineCtx O x' ls
+
+/-- the batches the context clause speaks about: every line well-formed, non-grammar, or outside but not a graphics part;
+graphics transfers in order -/
+def inDomainLinesCtx (O : Oracles) (ls : List Bytes) : Bool :=
+  ls.all (fun l => classify O l != .outside || !isGfxFamLine l) && gfxDisciplineCtx O none ls
+
+end RawPanelVerif.Spec.In
+
 /-! ## the guard of the round trip messages → lines → messages (C02 `roundtrip_in`) -/
 namespace RawPanelVerif.Spec.In
 open RawPanelVerif RawPanelVerif.Bytes RawPanelVerif.MsgIn
